@@ -191,6 +191,7 @@ type FireRec struct {
 	G    *smt.Term
 	// Deferred: the pending operation is a deferred call (P is the position of the defer statement)
 	Deferred bool
+	Fn       string // function containing the pending operation
 }
 
 // EnvRec: the environment cancels context Ctx at step Step (when G holds in the model).
@@ -897,7 +898,7 @@ func (m *M) final() {
 		for _, cfg := range m.live[t] {
 			if cfg.Status == stRun {
 				in := m.curInstr(cfg)
-				fr := FireRec{P: in.Pos(), Step: m.K, Th: t, Name: m.threads[t].Name, Pos: m.pos(in), Op: in.String(), G: cfg.G}
+				fr := FireRec{P: in.Pos(), Step: m.K, Th: t, Name: m.threads[t].Name, Pos: m.pos(in), Op: in.String(), G: cfg.G, Fn: m.top(cfg).Fn.Name()}
 				if _, ok := in.(*ssa.RunDefers); ok {
 					if f := m.top(cfg); len(f.Defers) > 0 {
 						d := f.Defers[len(f.Defers)-1].Instr
